@@ -1,6 +1,7 @@
 import OmplModel.Proofs.Interleave
 import OmplModel.Proofs.InterleaveInst
 import OmplModel.Proofs.InterleavePrrt
+import OmplModel.Proofs.InterleaveSchedules
 /-!
 # C19 — concurrent use through the documented thread-safe surface is race-free
 
@@ -17,6 +18,24 @@ All theorems are arithmetic-free or use only `Nat` counting.
 -/
 namespace OmplModel.Props.C19
 open OmplModel.Interleave
+
+/-! ## the quantifier -/
+
+/-- **`schedules ts` enumerates exactly the complete interleavings**: every enumerated scheduler runs all
+threads to their end, and every complete scheduler (any list of thread choices, stutters included) executes
+the step sequence of an enumerated one.  So "for every `is` with `Complete ts is`" below is "for every
+interleaving of the thread family". -/
+theorem schedules_exactly_complete {α : Type} (ts : List (List α)) :
+    (∀ is ∈ schedules ts, Complete ts is) ∧
+      (∀ is, Complete ts is → ∃ js ∈ schedules ts, trace ts js = trace ts is) :=
+  ⟨fun is h => schedules_complete ts is h, fun is h => complete_mem_schedules ts is h⟩
+
+/-- every thread family has an interleaving (the theorems below are not vacuous) -/
+theorem schedules_nonempty {α : Type} (ts : List (List α)) : ∃ is, Complete ts is := exists_complete ts
+
+-- tests (evaluations of the enumerator on tiny families, not theorems about all sizes):
+example : (schedules (counterThreads .plain 2 1)).map (counterFinal .plain 2 1) = [2, 1, 1, 1, 1, 2] := by decide
+example : (schedules (counterThreads .atomic 2 2)).map (counterFinal .atomic 2 2) = [4, 4, 4, 4, 4, 4] := by decide
 
 /-! ## counters: `valid_++`, `invalid_++`, `offset_++` -/
 
